@@ -8,68 +8,85 @@ def early (T : Nat) (d : RDeb) : Bool :=
   d.fired || d.nowPending || (match d.deadline with | some dl => decide (dl < T) | none => false)
 def late (d : RDeb) : Bool := d.fired || d.nowPending || d.deadline.isSome
 
-/-- an upper bound on the refreshes still to come when no request is made at or after time `T` -/
+/-- an upper bound on the refreshes still to come when no request is made at or after time `T` (a flusher that
+has left its select starts one refresh for certain, which clears everything pending) -/
 def phi (T : Nat) (d : RDeb) : Nat :=
-  if d.now < T then 1 + (if early T d then 1 else 0) else (if late d then 1 else 0)
+  if d.phase = .woken then 1 + (if d.now < T then 1 else 0)
+  else if d.now < T then 1 + (if early T d then 1 else 0) else (if late d then 1 else 0)
 
 theorem phi_le_two (T : Nat) (d : RDeb) : phi T d ≤ 2 := by
-  unfold phi; split <;> split <;> omega
+  unfold phi; split <;> (try split) <;> (try split) <;> omega
 
 theorem rstep_now (I : Nat) (d : RDeb) (a : RAct) : d.now ≤ (rstep I d a).now := by
-  cases a <;> simp only [rstep]
+  cases a <;> simp only [rstep, rstepWith, id]
   · cases d.deadline with
     | none => simp
     | some dl => dsimp only; split <;> simp
-  · exact Nat.le_refl _
-  · exact Nat.le_refl _
-  · split <;> exact Nat.le_refl _
-  · exact Nat.le_refl _
+  all_goals (try split) <;> exact Nat.le_refl _
 
 theorem rstep_phi (I T : Nat) (d : RDeb) (a : RAct) (hT : T ≤ d.now + I) (ha : a ≠ .refreshNow)
     (hd : a = .debounce → d.now < T) :
     (rstep I d a).refreshes + phi T (rstep I d a) ≤ d.refreshes + phi T d := by
-  obtain ⟨now, deadline, fired, nowPending, busy, refreshes⟩ := d
+  obtain ⟨now, deadline, fired, nowPending, bc, phase, refreshes⟩ := d
   cases a with
   | refreshNow => exact absurd rfl ha
-  | done => simp [rstep, phi, early, late]
+  | done =>
+    cases phase <;> simp [rstep, rstepWith, phi, early, late]
   | debounce =>
     have hlt : now < T := hd rfl
     have hnot : ¬ (now + I < T) := by simp only at hT; omega
-    simp only [rstep, phi, early, hlt, ↓reduceIte, hnot, decide_false, Bool.or_false]
-    cases fired <;> cases nowPending <;> cases deadline <;> simp <;> split <;> omega
-  | wake =>
-    simp only [rstep, phi, early, late]
-    cases busy <;> cases fired <;> cases nowPending <;> simp <;> (try split) <;> (try split) <;> omega
+    cases phase <;> simp only [rstep, rstepWith, phi, early, hlt, ↓reduceIte, hnot, decide_false, Bool.or_false, reduceCtorEq] <;>
+      cases fired <;> cases nowPending <;> cases deadline <;> simp <;> (try split) <;> omega
+  | wakeT =>
+    cases phase <;> cases fired <;> simp [rstep, rstepWith, phi, early, late] <;> (try split) <;> (try split) <;> omega
+  | wakeN =>
+    cases phase <;> cases nowPending <;> simp [rstep, rstepWith, phi, early, late] <;> (try split) <;> (try split) <;> omega
+  | start =>
+    cases phase <;> simp [rstep, rstepWith, phi, early, late] <;> (try split) <;> omega
   | tick =>
-    simp only [rstep, phi, early, late]
-    cases deadline with
-    | none =>
-      simp only [Option.isSome_none, Bool.or_false]
-      by_cases h1 : now + 1 < T
-      · have h0 : now < T := by omega
-        simp [h1, h0]
-      · by_cases h0 : now < T
-        · simp only [h1, h0, ↓reduceIte]
-          split <;> omega
-        · simp [h1, h0]
-    | some dl =>
-      dsimp only
-      by_cases hf : dl ≤ now + 1
-      · simp only [hf, ↓reduceIte, Bool.true_or, Bool.or_true, Option.isSome_some]
-        by_cases h1 : now + 1 < T
-        · have h0 : now < T := by omega
-          have h2 : dl < T := by omega
-          simp [h1, h0, h2]
-        · by_cases h0 : now < T
-          · simp only [h1, h0, ↓reduceIte]; omega
-          · simp [h1, h0]
-      · simp only [hf, ↓reduceIte, Option.isSome_some, Bool.or_true]
+    by_cases hw : phase = .woken
+    · subst hw
+      simp only [rstep, rstepWith, phi]
+      cases deadline with
+      | none => simp only [↓reduceIte]; split <;> split <;> omega
+      | some dl => dsimp only; split <;> simp only [↓reduceIte] <;> split <;> split <;> omega
+    · have hw' : ∀ (d' : RDeb), d'.phase = phase → phi T d' =
+          (if d'.now < T then 1 + (if early T d' then 1 else 0) else (if late d' then 1 else 0)) := by
+        intro d' h; unfold phi; rw [h]; simp [hw]
+      simp only [rstep, rstepWith]
+      cases deadline with
+      | none =>
+        rw [hw' _ rfl, hw' _ rfl]
+        simp only [early, late, Option.isSome_none, Bool.or_false]
         by_cases h1 : now + 1 < T
         · have h0 : now < T := by omega
           simp [h1, h0]
         · by_cases h0 : now < T
-          · simp only [h1, h0, ↓reduceIte]; omega
+          · simp only [h1, h0, ↓reduceIte]
+            split <;> omega
           · simp [h1, h0]
+      | some dl =>
+        dsimp only
+        by_cases hf : dl ≤ now + 1
+        · simp only [hf, ↓reduceIte]
+          rw [hw' _ rfl, hw' _ rfl]
+          simp only [early, late, Bool.true_or, Bool.or_true, Option.isSome_some]
+          by_cases h1 : now + 1 < T
+          · have h0 : now < T := by omega
+            have h2 : dl < T := by omega
+            simp [h1, h0, h2]
+          · by_cases h0 : now < T
+            · simp only [h1, h0, ↓reduceIte]; omega
+            · simp [h1, h0]
+        · simp only [hf, ↓reduceIte]
+          rw [hw' _ rfl, hw' _ rfl]
+          simp only [early, late, Option.isSome_some, Bool.or_true]
+          by_cases h1 : now + 1 < T
+          · have h0 : now < T := by omega
+            simp [h1, h0]
+          · by_cases h0 : now < T
+            · simp only [h1, h0, ↓reduceIte]; omega
+            · simp [h1, h0]
 
 /-- along the run: every `debounce()` happens before time `T`, nobody calls `refreshNow()` -/
 def ReqsBefore (I T : Nat) : RDeb → List RAct → Prop
